@@ -1,6 +1,5 @@
 """C06 — every partial read agrees with the corresponding part of the full read (DESIGN.md section 6, C06)."""
 import json
-import multiprocessing as mp
 import os
 import warnings
 
@@ -206,28 +205,16 @@ def run(ctx):
 
 
 def _run_jobs(ctx, jobs):
-    """all datasets in a pool of forked workers; a worker that dies (native crash) breaks the pool: the unfinished jobs are then
-    re-run one per process so that the crash is attributed to its dataset and reported as a failing input"""
-    from concurrent.futures import ProcessPoolExecutor
-    from concurrent.futures.process import BrokenProcessPool
-    res = [None] * len(jobs)
-    with ProcessPoolExecutor(max_workers=min(8, os.cpu_count() or 4), mp_context=mp.get_context("fork"), initializer=_init) as ex:
-        futs = [ex.submit(run_dataset_job, j) for j in jobs]
-        for k, f in enumerate(futs):
-            try:
-                res[k] = f.result(timeout=900)
-            except BrokenProcessPool:
-                pass
+    """all datasets through harness.common.pmap (forked workers; a worker that segfaults, aborts or hangs yields a
+    {"__crashed__": ...} result instead of hanging the check): a crash is attributed to its dataset and reported as a
+    failing input of the property (replay re-runs the dataset's programs one per child process)"""
+    res = C.pmap(run_dataset_job, jobs, init=_init, nproc=min(8, os.cpu_count() or 4), job_timeout=300 if ctx.quick() else 900)
     for k, j in enumerate(jobs):
-        if res[k] is None:
-            try:
-                with ProcessPoolExecutor(max_workers=1, mp_context=mp.get_context("fork"), initializer=_init) as ex:
-                    res[k] = ex.submit(run_dataset_job, j).result(timeout=900)
-            except BrokenProcessPool:
-                ctx.fail({"component": "crash", "what": "crash"}, {"ds": j[0], "programs": j[1], "program_seed": j[2], "nprog": j[3]},
-                         "the process died (native crash) while running the access programs of this dataset")
-                res[k] = {"ds": j[0], "error": None, "crashed": True, "programs": [],
-                          "base": None}
+        r = res[k]
+        if isinstance(r, dict) and "__crashed__" in r:
+            ctx.fail({"component": "crash", "what": "crash"}, {"ds": j[0], "programs": j[1], "program_seed": j[2], "nprog": j[3]},
+                     "running the access programs of this dataset on the real code: " + r["__crashed__"])
+            res[k] = {"ds": j[0], "error": None, "crashed": True, "programs": [], "base": None}
     return res
 
 
